@@ -217,7 +217,7 @@ class Gen:
         if rng.random() < 0.01:
             return [self.ident()]  # rejected: single identifier
         if rng.random() < 0.012:
-            # accepted, but printed as cds(x): finding class cds_single_wrapped
+            # accepted; regression class cds_single_wrapped (repaired): printed as cds((x)), not as cds(x)
             return ["("] + (["not"] if rng.random() < 0.3 else []) + [self.ident(0)] + [")"]
         return self.ors(rng.randint(1, 2), True, aliases, at_least_two=True)
 
@@ -505,11 +505,13 @@ CDS_SINGLE = None
 
 
 def is_cds_single_text(text):
-    """ the regenerated text holds cds(<identifier>) or cds(not <identifier>), which the parser rejects """
+    """ the regenerated text holds cds((<identifier>)) or cds((not <identifier>)): the explicit group that
+        CDSCondition.__str__ keeps around an only member printing as a bare identifier (regression class
+        cds_single_wrapped, repaired; before the repair the text was cds(<identifier>), which the parser rejects) """
     global CDS_SINGLE  # pylint: disable=global-statement
     if CDS_SINGLE is None:
         import re
-        CDS_SINGLE = re.compile(r"cds\((not )?[A-Za-z0-9_-]+\)")
+        CDS_SINGLE = re.compile(r"cds\(\((not )?[A-Za-z0-9_-]+\)\)")
     return CDS_SINGLE.search(text) is not None
 
 
@@ -788,14 +790,10 @@ def run(chk):
                         chk.known(known["fractional_kb"]["what_fails"])
                     else:
                         problem = "regenerated text loses fractional kilobases (class fractional_kb not listed as known)"
-        if problem == "regenerated text does not parse back to one rule" and is_cds_single_text(text):
-            # finding class cds_single_wrapped: cds((a)) is accepted and printed as cds(a), which is rejected
+        if is_cds_single_text(text):
+            # regression class cds_single_wrapped (repaired): cds((a)) is regenerated as cds((a)); nothing is
+            # suppressed, a regenerated text that does not parse back is an ordinary counterexample
             chk.count("roundtrip_cds_single_wrapped")
-            if "cds_single_wrapped" in known:
-                chk.known(known["cds_single_wrapped"]["what_fails"])
-                problem = None
-            else:
-                problem = "regenerated text does not parse back to one rule (class cds_single_wrapped not listed as known)"
         if "not (not " in text:
             # regression class double_negation_text / double_negation_wrapped (both repaired): the regenerated text
             # of a doubled negation keeps its parentheses; a failure here is an ordinary counterexample
@@ -828,7 +826,7 @@ def run(chk):
     tmpdir = tempfile.mkdtemp(prefix="asv_c02_")
     try:
         # corpus: witnesses of the repaired defects (recursive alias; doubled negation, direct and wrapped in
-        # non-negated one-member groups) and of the scaling class
+        # non-negated one-member groups; cds() around a one-member group) and of the scaling class
         corpus = [
             (["DEFINE x AS a or x\nRULE r1 CATEGORY cat CUTOFF 1 NEIGHBOURHOOD 1 CONDITIONS x"], (1, 1, 1, 1)),
             (["DEFINE x AS al2\nDEFINE al2 AS x or a\nRULE r1 CATEGORY cat CUTOFF 1 NEIGHBOURHOOD 1 CONDITIONS x"], (1, 1, 1, 1)),
@@ -844,9 +842,15 @@ def run(chk):
               "RULE r3 CATEGORY cat SUPERIORS r2 CUTOFF 5 NEIGHBOURHOOD 5 CONDITIONS c"], (1, 1, 1, 1)),
             (["DEFINE al1 AS a or b\nRULE r1 CATEGORY cat CUTOFF 5 NEIGHBOURHOOD 5 CONDITIONS al1 and c"], (1, 1, 1, 1)),
             (["RULE r1 CATEGORY cat CUTOFF 5 NEIGHBOURHOOD 5 CONDITIONS a#c\n"], (1, 1, 1, 1)),
-            # witnesses of the known classes cds_single_wrapped and extenders_unknown_profile
+            # regression: witness of the repaired class cds_single_wrapped (FC02d) and variants - deeper nesting,
+            # negated group / negated member, inside EXTENDERS, next to members that keep their own parentheses
             (["RULE r1 CATEGORY cat CUTOFF 1 NEIGHBOURHOOD 1 CONDITIONS b and cds((a))\n"
               "RULE r2 CATEGORY cat CUTOFF 1 NEIGHBOURHOOD 1 CONDITIONS a or not cds((not b))"], (1, 1, 1, 1)),
+            (["RULE r1 CATEGORY cat CUTOFF 1 NEIGHBOURHOOD 1 CONDITIONS b and cds(((a))) or c and cds(not (a))\n"
+              "RULE r2 CATEGORY cat CUTOFF 1 NEIGHBOURHOOD 1 CONDITIONS a and not cds(not ((not b))) EXTENDERS cds((c))\n"
+              "RULE r3 CATEGORY cat CUTOFF 1 NEIGHBOURHOOD 1 CONDITIONS a and cds((minscore(b, 5))) or cds((a and c)) "
+              "or cds((a or c)) or d and cds((e)) and cds(e and a)"], (1, 1, 1, 1)),
+            # witness of the known class extenders_unknown_profile
             (["RULE r1 CATEGORY cat CUTOFF 1 NEIGHBOURHOOD 1 CONDITIONS a EXTENDERS zz\n"
               "RULE r2 CATEGORY cat CUTOFF 1 NEIGHBOURHOOD 1 CONDITIONS a EXTENDERS cds(unk and b)"], (1, 1, 1, 1)),
         ]
